@@ -667,6 +667,12 @@ RunProgram(prog, S) ==
   LET S1 == ExecList(prog, [S EXCEPT !.sig = "", !.err = NoErr, !.rv = VNil, !.hasrv = FALSE, !.out = ""]) IN
   IF S1.sig \in {"brk", "cont"} THEN [S1 EXCEPT !.sig = ""] ELSE S1
 
+\* A function declaration takes effect when its text is compiled (and again whenever the declaration runs): the
+\* declarations at the top level of a program, installed in S
+RECURSIVE DeclFuncs(_, _)
+DeclFuncs(ast, S) == IF ast = <<>> THEN S
+                     ELSE DeclFuncs(Tail(ast), IF Head(ast).k = "func" THEN [Exec(Head(ast), [S EXCEPT !.sig = "", !.err = NoErr]) EXCEPT !.sig = ""] ELSE S)
+
 \* Statement-at-a-time execution (bloc -i, and the Context.h recipe): every top-level statement is
 \* compiled and run on its own; an error is reported and the next statement still runs; a top-level
 \* return only yields a value.  Result: final state with .out accumulated, .first = first error (or NoErr).
